@@ -362,4 +362,183 @@ theorem evalT_refines {tt : TTable} (hT : tt.WF) :
               obtain ⟨t0, e0, rfl⟩ := prepend_eq_ok e
               exact ((hi2 v' rfl).anti (subset_push st _)).append (hi t0 e0)
 
+/-! ## fuel monotonicity of the evaluator -/
+
+theorem evalT_fuel_succ (tt : TTable) :
+    ∀ (n : Nat) (t : Tmpl) (st : List Toks), evalT tt n t st ≠ .outOfFuel →
+      evalT tt (n + 1) t st = evalT tt n t st := by
+  intro n
+  induction n with
+  | zero => intro t st h; exact absurd rfl h
+  | succ n ih =>
+    intro t st h
+    cases t with
+    | done => rfl
+    | lit a rest =>
+      simp only [evalT] at h ⊢
+      rw [ih rest st (prepend_ne_outOfFuel.mp h)]
+    | ph key rest =>
+      simp only [evalT] at h ⊢
+      by_cases hc : st.contains key = true
+      · simp only [hc, if_true]
+      · simp only [hc] at h ⊢
+        cases hg : tt.get key with
+        | none =>
+          simp only [hg] at h ⊢
+          rw [ih rest st (prepend_ne_outOfFuel.mp h)]
+        | some v =>
+          simp only [hg] at h ⊢
+          cases e2 : evalT tt n v (st ++ [key]) with
+          | outOfFuel => simp [e2] at h
+          | cycle o => rw [ih v _ (by rw [e2]; simp), e2]
+          | ok v' =>
+            rw [ih v _ (by rw [e2]; simp), e2]
+            simp only [e2] at h ⊢
+            rw [ih rest st (prepend_ne_outOfFuel.mp h)]
+    | phd key d rest =>
+      simp only [evalT] at h ⊢
+      by_cases hc : st.contains (rawD key d) = true
+      · simp only [hc, if_true]
+      · simp only [hc] at h ⊢
+        cases e1 : evalT tt n d (st ++ [rawD key d]) with
+        | outOfFuel => simp [e1] at h
+        | cycle o => rw [ih d _ (by rw [e1]; simp), e1]
+        | ok d' =>
+          rw [ih d _ (by rw [e1]; simp), e1]
+          simp only [e1] at h ⊢
+          cases hg : tt.get key with
+          | none =>
+            simp only [hg] at h ⊢
+            rw [ih rest st (prepend_ne_outOfFuel.mp h)]
+          | some v =>
+            simp only [hg] at h ⊢
+            cases e2 : evalT tt n v (st ++ [rawD key d]) with
+            | outOfFuel => simp [e2] at h
+            | cycle o => rw [ih v _ (by rw [e2]; simp), e2]
+            | ok v' =>
+              rw [ih v _ (by rw [e2]; simp), e2]
+              simp only [e2] at h ⊢
+              rw [ih rest st (prepend_ne_outOfFuel.mp h)]
+
+theorem evalT_fuel_mono (tt : TTable) {n m : Nat} (hnm : n ≤ m) (t : Tmpl) (st : List Toks)
+    (h : evalT tt n t st ≠ .outOfFuel) : evalT tt m t st = evalT tt n t st := by
+  induction hnm with
+  | refl => rfl
+  | step hle ih => rw [evalT_fuel_succ tt _ t st (by rw [ih]; exact h), ih]
+
+/-! ## the converse: the evaluator ends whenever the resolver does -/
+
+theorem evalT_ends {tt : TTable} (hT : tt.WF) :
+    ∀ (n : Nat) (t : Tmpl) (st : List Toks), t.WF → Ends id (toTable tt) n (render t) st →
+      ∃ m, evalT tt m t st ≠ .outOfFuel := by
+  intro n
+  induction n with
+  | zero => intro t st _ h; exact absurd h not_ends_zero
+  | succ n ih =>
+    intro t
+    induction t with
+    | done => intro st _ _; exact ⟨1, by simp [evalT]⟩
+    | lit a rest iht =>
+      intro st hwf h
+      obtain ⟨ha, hrest⟩ := hwf
+      obtain ⟨m, hm⟩ := iht st hrest (Ends.text (t := a) h ha.not_pre)
+      exact ⟨m + 1, by simp only [evalT]; exact prepend_ne_outOfFuel.mpr hm⟩
+    | ph key rest _ =>
+      intro st hwf h
+      obtain ⟨hk, hrest⟩ := hwf
+      have hf : firstPh (render (.ph key rest)) = some ([], key, render rest) := firstPh_ph _ hk
+      by_cases hc : st.contains key = true
+      · exact ⟨1, by simp only [evalT]; rw [if_pos hc]; simp⟩
+      · have hn : key ∉ st := by simpa using hc
+        have hc' : st.contains key = false := by simpa using hc
+        cases hg : tt.get key with
+        | none =>
+          obtain ⟨m, hm⟩ := ih rest st hrest
+            (h.rest_verbatim hf hn (resolves_text hk _) (rp_key_none hk hg))
+          exact ⟨m + 1, by simp only [evalT, hc', Bool.false_eq_true, ↓reduceIte, hg]; exact prepend_ne_outOfFuel.mpr hm⟩
+        | some v =>
+          have hv : v.WF := TTable.get_wf hT hg
+          obtain ⟨m₁, hm₁⟩ := ih v _ hv (h.value hf hn (resolves_text hk _) (rp_key_some hg))
+          cases e2 : evalT tt m₁ v (st ++ [key]) with
+          | outOfFuel => exact absurd e2 hm₁
+          | cycle o => exact ⟨m₁ + 1, by simp only [evalT, hc', Bool.false_eq_true, ↓reduceIte, hg, e2]; simp⟩
+          | ok v' =>
+            obtain ⟨hr2, _⟩ := evalT_refines hT m₁ v _ _ hv e2 (by simp)
+            obtain ⟨m₂, hm₂⟩ := ih rest st hrest
+              (h.rest hf hn (resolves_text hk _) (rp_key_some hg) hr2)
+            refine ⟨max m₁ m₂ + 1, ?_⟩
+            have a1 := evalT_fuel_mono tt (Nat.le_max_left m₁ m₂) v _ hm₁
+            have a2 := evalT_fuel_mono tt (Nat.le_max_right m₁ m₂) rest st hm₂
+            simp only [evalT, hc', Bool.false_eq_true, ↓reduceIte, hg, a1, e2, a2]
+            exact prepend_ne_outOfFuel.mpr hm₂
+    | phd key d rest _ _ =>
+      intro st hwf h
+      obtain ⟨hk, hd, hrest⟩ := hwf
+      have hf : firstPh (render (.phd key d rest)) = some ([], rawD key d, render rest) :=
+        firstPh_phd _ hk hd
+      by_cases hc : st.contains (rawD key d) = true
+      · exact ⟨1, by simp only [evalT]; rw [if_pos hc]; simp⟩
+      · have hn : rawD key d ∉ st := by simpa using hc
+        have hc' : st.contains (rawD key d) = false := by simpa using hc
+        have hkey := h.key hf hn
+        have hpre : Tok.pre ∉ key ++ [Tok.sep] := by
+          simp only [List.mem_append, List.mem_singleton, not_or]
+          exact ⟨hk.not_pre, by simp⟩
+        have e : rawD key d = (key ++ [Tok.sep]) ++ render d := by simp [rawD]
+        have aux : ∀ S, Ends id (toTable tt) n (rawD key d) S → Ends id (toTable tt) n (render d) S := by
+          intro S hS; rw [e] at hS; exact Ends.text hS hpre
+        obtain ⟨m₁, hm₁⟩ := ih d _ hd (aux _ hkey)
+        cases e1 : evalT tt m₁ d (st ++ [rawD key d]) with
+        | outOfFuel => exact absurd e1 hm₁
+        | cycle o => exact ⟨m₁ + 1, by simp only [evalT, hc', Bool.false_eq_true, ↓reduceIte, e1]; simp⟩
+        | ok d' =>
+          obtain ⟨hr1, hi1⟩ := evalT_refines hT m₁ d _ _ hd e1 (by simp)
+          have h1 : Resolves id (toTable tt) (rawD key d) (st ++ [rawD key d]) (.ok (key ++ Tok.sep :: d')) := by
+            have := resolves_rawD hk hr1
+            simpa [Res.prepend] using this
+          have hid : Inert (toTable tt) (st ++ [rawD key d]) d' := hi1 d' rfl
+          cases hg : tt.get key with
+          | none =>
+            obtain ⟨m₂, hm₂⟩ := ih rest st hrest
+              (h.rest hf hn h1 (rp_dflt_none hT hk hg) hid.resolves)
+            refine ⟨max m₁ m₂ + 1, ?_⟩
+            have a1 := evalT_fuel_mono tt (Nat.le_max_left m₁ m₂) d _ hm₁
+            have a2 := evalT_fuel_mono tt (Nat.le_max_right m₁ m₂) rest st hm₂
+            simp only [evalT, hc', Bool.false_eq_true, ↓reduceIte, hg, a1, e1, a2]
+            exact prepend_ne_outOfFuel.mpr hm₂
+          | some v =>
+            have hv : v.WF := TTable.get_wf hT hg
+            obtain ⟨m₂, hm₂⟩ := ih v _ hv (h.value hf hn h1 (rp_dflt_some hT hk hg))
+            cases e2 : evalT tt m₂ v (st ++ [rawD key d]) with
+            | outOfFuel => exact absurd e2 hm₂
+            | cycle o =>
+              refine ⟨max m₁ m₂ + 1, ?_⟩
+              have a1 := evalT_fuel_mono tt (Nat.le_max_left m₁ m₂) d _ hm₁
+              have a2 := evalT_fuel_mono tt (Nat.le_max_right m₁ m₂) v _ hm₂
+              simp only [evalT, hc', Bool.false_eq_true, ↓reduceIte, hg, a1, e1, a2, e2]; simp
+            | ok v' =>
+              obtain ⟨hr2, _⟩ := evalT_refines hT m₂ v _ _ hv e2 (by simp)
+              obtain ⟨m₃, hm₃⟩ := ih rest st hrest
+                (h.rest hf hn h1 (rp_dflt_some hT hk hg) hr2)
+              refine ⟨max m₁ (max m₂ m₃) + 1, ?_⟩
+              have a1 := evalT_fuel_mono tt (Nat.le_max_left m₁ (max m₂ m₃)) d _ hm₁
+              have a2 := evalT_fuel_mono tt (by omega : m₂ ≤ max m₁ (max m₂ m₃)) v _ hm₂
+              have a3 := evalT_fuel_mono tt (by omega : m₃ ≤ max m₁ (max m₂ m₃)) rest st hm₃
+              simp only [evalT, hc', Bool.false_eq_true, ↓reduceIte, hg, a1, e1, a2, e2, a3]
+              exact prepend_ne_outOfFuel.mpr hm₃
+
+/-- both directions: the resolver ends with `r` on the rendered template iff the reference
+    evaluator ends with `r` -/
+theorem resolves_iff_evalT {tt : TTable} (hT : tt.WF) (t : Tmpl) (st : List Toks) (ht : t.WF) (r : Res) :
+    Resolves id (toTable tt) (render t) st r ↔ ∃ m, evalT tt m t st = r ∧ r ≠ .outOfFuel := by
+  constructor
+  · intro h
+    obtain ⟨n, hn, hne⟩ := h
+    obtain ⟨m, hm⟩ := evalT_ends hT n t st ht (by unfold Ends; rw [hn]; exact hne)
+    have := (evalT_refines hT m t st _ ht rfl hm).1
+    have e := this.unique ⟨n, hn, hne⟩
+    exact ⟨m, e, hne⟩
+  · rintro ⟨m, hm, hne⟩
+    exact (evalT_refines hT m t st r ht hm hne).1
+
 end Ytk.Resolver
